@@ -9,6 +9,7 @@ C16 line protocol (strings travel as hex of UTF-8, `-` = empty string).
         nl = 1 when the text carries the interpreter's final newline
       -> `... | wf=<WFtextA> gen=<toStringA data (+ "\n") = text> wfc=<WFtextA ∧ no markers ∧ no final newline → WFtext text>`
   L <limit|n> <syslimit|n> <class> <msg> <priors> <entry>*
+        msg = <str() of the exception> | !       (`!` = str() raised)
         class = <module|!>:<qualname>            (`!` = `__module__` is not a str)
         priors = - | <class>:<msg>;...           (the earlier captures of the session, exception part only)
         entry = path,lineno,func,fid,cache,disk,loader   (what the interpreter hands over, see Model `TbEntry`)
@@ -126,10 +127,14 @@ def parseClassTok (w : String) : Option ExcType :=
   | [m, q] => parseClass m q
   | _ => none
 
+/-- `str()` of the exception: hex text, or `!` when `str()` raised -/
+def parseMsg (w : String) : Option Str :=
+  if w = "!" then some (someStr none) else (unhx w).map fun s => someStr (some s)
+
 def parseCaptureTok (w : String) : Option Capture :=
   match splitOnChar w ':' with
   | [m, q, ms] =>
-    match parseClass m q, unhx ms with
+    match parseClass m q, parseMsg ms with
     | some c, some ms => some (c, ms)
     | _, _ => none
   | _ => none
@@ -144,7 +149,7 @@ def handleL (toks : List String) : String :=
   | lim :: sys :: cl :: ms :: pri :: es =>
     let limit? : Option (Option Nat) := if lim = "n" then some none else lim.toNat?.map some
     let sys? : Option (Option Int) := if sys = "n" then some none else sys.toInt?.map some
-    match limit?, sys?, parseClassTok cl, unhx ms, parsePriors pri, allSome (es.map parseEntryTok) with
+    match limit?, sys?, parseClassTok cl, parseMsg ms, parsePriors pri, allSome (es.map parseEntryTok) with
     | some limit, some sys, some cl, some ms, some pri, some tb =>
       let ty := typeStr cl
       let y := if pri.isEmpty then "-" else ";".intercalate ((sessionB pri).map showCapture)
